@@ -1,71 +1,107 @@
 ------------------------- MODULE Trace_MoleculeEdit -------------------------
-(* Batch validation of editing histories recorded from real vermouth Molecule objects.
-   Batch[tid] is a sequence of events; every event names the call, its arguments, the error outcome and the
-   projection of every heap cell after the call.  An event is accepted iff the effect operator of MoleculeEdit,
-   applied to the model heap, gives exactly the logged outcome and the logged cells.                 *)
+(* Batch validation of editing histories recorded from real vermouth Molecule / Block / System objects.
+   Batch[tid] is a sequence of events; every event names the call, its arguments, the error outcome and the projection
+   of the whole world after the call: every heap cell (atoms, bonds, interactions; the highest-key cache and the
+   bookkeeping: meta, citations, log entries, nrexcl, force field), the molecule list of the System, and which cells
+   hold the same citation-set object.
+
+   An event is ACCEPTED iff the outcome operator of MoleculeEdit, applied to the world before the call, gives exactly the
+   logged error outcome, the logged atoms / bonds / interactions of every cell and the logged molecule list, and the
+   logged cells satisfy NoDangling.  That is the statement of C12; a rejected event ends the trace (why # "ok").
+
+   BOOKKEEPING is judged separately and never rejects: the names of the clauses the call did not respect (computed by
+   MoleculeEdit on the world before / after) and any difference between the logged and the computed bookkeeping
+   ("differs:bk", "differs:cache", "differs:parts") are appended to `seen` as "<event index>:<name>"; the trace goes on
+   from the LOGGED world, so one deviation is reported once.                                                     *)
 EXTENDS Integers, Sequences, FiniteSets, TLC, Json, IOUtils
 
-CONSTANTS Types
+CONSTANTS Types, EdgeTypes, Cells, BlockCells, CacheModel, LogExtra, CitShared, LogPurge
 
 Batch == JsonDeserialize(IOEnv.TRACE_FILE)
 
-VARIABLES tid, l, heap, why
-tvars == <<tid, l, heap, why>>
+VARIABLES tid, l, W, why, seen
+tvars == <<tid, l, W, why, seen>>
 
-ME == INSTANCE MoleculeEdit WITH Id <- {1, 2, 3}, Key <- {}, AttrChoice <- <<>>, InitMols <- {}, AtomSeqs <- {},
-        NodeSets <- {}, MaxNodes <- 0, MaxInter <- 0, MaxResid <- 0, MaxDepth <- 0,
-        CacheModel <- "repaired", OneShotPurges <- TRUE, mols <- heap, err <- why, steps <- l
+ME == INSTANCE MoleculeEdit WITH Id <- Cells, BlockIds <- BlockCells, InitHeaps <- {}, InitSys <- {}, Key <- {}, BKey <- {},
+        BAtomSeqs <- {}, BRank <- [a |-> 1, b |-> 2, c |-> 3, d |-> 4, e |-> 5, f |-> 6],
+        AttrChoice <- <<>>, AtomSeqs <- {}, NodeSets <- {}, ChainSets <- {}, Offsets <- {},
+        MaxNodes <- 0, MaxInter <- 0, MaxResid <- 0, MaxDepth <- 0, Acts <- {}, OneShotPurges <- TRUE,
+        mols <- W.mols, sys <- W.sys, parts <- W.parts, err <- why, obs <- {}, last <- "-", steps <- l
 
-Cells == {1, 2, 3}
 SeqToSet(s) == {s[i] : i \in DOMAIN s}
-
 NodeRec(k, a) == [key |-> k, resid |-> a.resid, cg |-> a.cg, tag |-> a.tag]
 
-\* expected [cell -> [mol, err]] of event e on heap h: the touched cell and its effect
-Effect(e, h) ==
-  CASE e.ev = "AddNode"         -> ME!EffAddNode(h[e.m], NodeRec(e.k, e.a))
-    [] e.ev = "AddNodesFrom"    -> ME!EffAddNodesFrom(h[e.m], [i \in DOMAIN e.ks |-> NodeRec(e.ks[i], e.a)])
-    [] e.ev = "SetResid"        -> ME!EffSetResid(h[e.m], e.k, e.r)
-    [] e.ev = "RemoveNode"      -> ME!EffRemoveNode(h[e.m], e.k)
-    [] e.ev = "RemoveNodesFrom" -> ME!EffRemoveNodesFrom(h[e.m], SeqToSet(e.ks), e.oneShot)
-    [] e.ev = "AddEdge"         -> ME!EffAddEdge(h[e.m], e.k, e.b)
-    [] e.ev = "AddInter"        -> ME!EffAddInter(h[e.m], e.ty, e.at, e.v, e.t)
-    [] e.ev = "AddOrReplace"    -> ME!EffAddOrReplace(h[e.m], e.ty, e.at, e.v, e.t)
-    [] e.ev = "RemoveInter"     -> ME!EffRemoveInter(h[e.m], e.ty, e.at, e.v)
-    [] e.ev = "Copy"            -> ME!R(ME!SubMol(h[e.src], ME!KeySeq(h[e.src])), "none")
-    [] e.ev = "Subgraph"        -> ME!R(ME!SubMol(h[e.src], e.ks), "none")
-    [] e.ev = "Merge"           -> ME!EffMerge(h[e.m], h[e.n])
-    [] e.ev = "MergeAll"        -> ME!R(ME!FoldMerge(h[e.ks[1]], h, Tail(e.ks)), "none")                      \* into the first molecule
-    [] e.ev = "MergeChains"     -> ME!R(ME!MergedChains(h, e.ks, SeqToSet(e.at)), "none")                     \* e.at: the chains
-    [] e.ev = "ToMolecule"      -> ME!R(ME!ToMolecule(h[e.src], e.k, e.r, e.v), "none")                       \* block = cell e.src
-
-Proj(M) == [nodes |-> M.nodes, edges |-> M.edges, inter |-> M.inter]
-Logged(p) == [nodes |-> p.nodes, edges |-> {<<p.edges[i][1], p.edges[i][2]>> : i \in DOMAIN p.edges}, inter |-> p.inter]
 PostOf(e, c) == LET i == CHOOSE j \in DOMAIN e.post : e.post[j][1] = c IN e.post[i][2]
+LoggedMol(p) == [nodes |-> p.nodes, edges |-> {<<p.edges[i][1], p.edges[i][2]>> : i \in DOMAIN p.edges}, inter |-> p.inter,
+                 maxnode |-> p.maxnode,
+                 bk |-> [meta |-> p.bk.meta, cit |-> SeqToSet(p.bk.cit), log |-> p.bk.log, nrexcl |-> p.bk.nrexcl, ff |-> p.bk.ff]]
+LoggedWorld(e) == [mols |-> [c \in Cells |-> LoggedMol(PostOf(e, c))], sys |-> e.sys,
+                   parts |-> {SeqToSet(e.parts[i]) : i \in DOMAIN e.parts}]
+
+\* the outcome of event e on world w
+Effect(e, w) ==
+  LET h == w.mols  B(c) == c \in BlockCells IN
+  CASE e.ev = "AddNode"         -> ME!OutInPlace(w, e.m, ME!EffAddNode(h[e.m], NodeRec(e.k, e.a), B(e.m)))
+    [] e.ev = "AddNodesFrom"    -> ME!OutInPlace(w, e.m, ME!EffAddNodesFrom(h[e.m], [i \in DOMAIN e.ks |-> NodeRec(e.ks[i], e.a)]))
+    [] e.ev = "SetResid"        -> ME!OutInPlace(w, e.m, ME!EffSetResid(h[e.m], e.k, e.r))
+    [] e.ev = "RemoveNode"      -> ME!OutInPlace(w, e.m, ME!EffRemoveNode(h[e.m], e.k))
+    [] e.ev = "RemoveNodesFrom" -> ME!OutInPlace(w, e.m, ME!EffRemoveNodesFrom(h[e.m], SeqToSet(e.ks), e.oneShot))
+    [] e.ev = "AddEdge"         -> ME!OutInPlace(w, e.m, ME!EffAddEdge(h[e.m], e.k, e.b, B(e.m)))
+    [] e.ev = "AddInter"        -> ME!OutInPlace(w, e.m, ME!EffAddInterE(h[e.m], e.ty, e.at, e.v, e.t, e.edge))
+    [] e.ev = "AddOrReplace"    -> ME!OutInPlace(w, e.m, ME!EffAddOrReplaceC(h[e.m], e.ty, e.at, e.v, e.t, SeqToSet(e.cs)))
+    [] e.ev = "RemoveInter"     -> ME!OutInPlace(w, e.m, ME!EffRemoveInter(h[e.m], e.ty, e.at, e.v))
+    [] e.ev = "MakeEdges"       -> ME!OutInPlace(w, e.m, ME!EffMakeEdges(h[e.m], B(e.m)))
+    [] e.ev = "Copy"            -> ME!OutStore(w, e.m, ME!CopyMol(h[e.src]), 0)
+    [] e.ev = "Subgraph"        -> ME!OutStore(w, e.m, ME!SubMol(h[e.src], e.ks), e.src)
+    [] e.ev = "GraphCopy"       -> ME!OutStore(w, e.m, ME!GraphCopyMol(h[e.src]), 0)
+    [] e.ev = "Merge"           -> ME!OutInPlace(w, e.m, ME!EffMerge(h[e.m], h[e.n], B(e.m), B(e.n)))
+    [] e.ev = "ToMol"           -> ME!OutStore(w, e.m, ME!ToMolecule(h[e.src], e.k, e.r, e.v), e.src)                \* block = cell e.src
+    [] e.ev = "SetSys"          -> ME!Outcome(w, h, e.ks, w.parts, "none", {}, {})                                    \* system.molecules = [...]
+    [] e.ev = "MergeAll"        -> ME!OutMergeAll(w)
+    [] e.ev = "MergeChains"     -> ME!OutMergeChains(w, SeqToSet(e.at), e.m)                                          \* e.at: the chains
+    [] e.ev = "MergeChainsAll"  -> ME!OutMergeChains(w, ME!AllChains(h, w.sys), e.m)
+    [] e.ev = "Load"            -> LET g == LoggedWorld(e) IN                                                         \* objects taken as they are
+                                   [mols |-> g.mols, sys |-> g.sys, parts |-> g.parts, err |-> "none", obs |-> {}]
+
+Clauses == <<"LogKept", "LogRenumbered", "LogNothingAdded", "CitKept", "MetaKept", "MergeLogTotal", "BookFrame", "LogNoDangling", "CacheSound">>
+Notes(i, o, r, g) ==      \* o: clauses, r: computed outcome, g: logged world
+  LET pre == ToString(i) \o ":" IN
+  [j \in DOMAIN SelectSeq(Clauses, LAMBDA c : c \in o) |-> pre \o SelectSeq(Clauses, LAMBDA c : c \in o)[j]]
+  \o (IF \E c \in Cells : r.mols[c].bk # g.mols[c].bk THEN <<pre \o "differs:bk">> ELSE <<>>)
+  \o (IF CacheModel = "tracked" /\ \E c \in Cells \ BlockCells : r.mols[c].maxnode # g.mols[c].maxnode THEN <<pre \o "differs:cache">> ELSE <<>>)
+  \o (IF r.parts # g.parts THEN <<pre \o "differs:parts">> ELSE <<>>)
 
 TInit == /\ tid \in 1..Len(Batch)
          /\ l = 1
-         /\ heap = [c \in Cells |-> ME!EmptyMol]
+         /\ W = ME!World([c \in Cells |-> ME!EmptyMol], <<>>, ME!Fresh)
          /\ why = "ok"
+         /\ seen = <<>>
 
 Consume ==
   /\ why = "ok"
   /\ l <= Len(Batch[tid])
   /\ LET e == Batch[tid][l]
-         r == Effect(e, heap)
-         h2 == [heap EXCEPT ![e.m] = r.mol]
-     IN IF r.err # e.err
-        THEN why' = "error outcome differs: model " \o r.err /\ UNCHANGED <<l, heap>>
-        ELSE IF \E c \in Cells : PostOf(e, c).extra
-        THEN why' = "interaction type outside the model" /\ UNCHANGED <<l, heap>>
-        ELSE IF \E c \in Cells : Proj(h2[c]) # Logged(PostOf(e, c))
-        THEN why' = "cell " \o ToString(CHOOSE c \in Cells : Proj(h2[c]) # Logged(PostOf(e, c))) \o " differs from the model"
-             /\ UNCHANGED <<l, heap>>
-        ELSE heap' = h2 /\ l' = l + 1 /\ UNCHANGED why
+         g == LoggedWorld(e)
+     IN IF \E c \in Cells : PostOf(e, c).extra
+        THEN why' = "interaction type outside the model" /\ UNCHANGED <<l, W, seen>>
+        ELSE IF \E c \in Cells : ~ ME!NoDanglingMol(g.mols[c])
+        THEN why' = "NoDangling fails on the real object in cell " \o ToString(CHOOSE c \in Cells : ~ ME!NoDanglingMol(g.mols[c]))
+             /\ UNCHANGED <<l, W, seen>>
+        ELSE LET r == Effect(e, W) IN
+        IF r.err # e.err
+        THEN why' = "error outcome differs: model " \o r.err /\ UNCHANGED <<l, W, seen>>
+        ELSE IF \E c \in Cells : ME!Stmt(r.mols[c]) # ME!Stmt(g.mols[c])
+        THEN why' = "cell " \o ToString(CHOOSE c \in Cells : ME!Stmt(r.mols[c]) # ME!Stmt(g.mols[c])) \o " differs from the model"
+             /\ UNCHANGED <<l, W, seen>>
+        ELSE IF r.sys # g.sys
+        THEN why' = "molecule list of the system differs from the model" /\ UNCHANGED <<l, W, seen>>
+        ELSE /\ W' = g
+             /\ l' = l + 1
+             /\ seen' = seen \o Notes(l, r.obs, r, g)
+             /\ UNCHANGED why
   /\ UNCHANGED tid
 
 TraceSpec == TInit /\ [][Consume]_tvars
 
-TraceNoDangling == ME!NoDangling
 TraceUniqueKeys == ME!UniqueKeys
 =============================================================================
